@@ -331,6 +331,50 @@ def r9(ctx):
                 ok = f.get("time") is not None and f["time"][0] == "param" and f.get("flags") is not None and mentions_call(f["flags"], r"get_wire_flags$") and mentions(f["flags"], lambda s_: s_[0] == "param" and s_[1] == "self")
                 ctx.check(ok, "cto-variation:%s" % path, "g2v3/g4v3 built from (self flags, given offset): %s" % expr_str(ex)[:120], x.where(blk.idx))
 
+def r10(ctx):
+    """The storage under the event buffer. (a) The shared list is sized as the sum of ALL per-type limits (each max_* field of
+    EventBufferConfig exactly once): a type left out makes `events.add` fail silently while `insert` reports Created. (b) Unlinking a
+    record from the doubly linked VecList rewrites the predecessor's `next` whenever there is a predecessor and the successor's `prev`
+    whenever there is a successor - each under its own test only - so a released record is never left reachable (released or
+    reported twice) and no live record is cut off."""
+    prog = ctx.prog
+    mb = prog.body("database::EventBufferConfig::max_events")
+    ms = ctx.sym(mb)
+    adt = prog.adt("outstation::database::EventBufferConfig")
+    fields = [f[0] for f in adt["variants"][0]["fields"] if f[0].startswith("max_")]
+    if len(fields) < 8:
+        raise AnchorError("EventBufferConfig max_* fields: %s" % fields)
+    rets = [e for _, _, _, e in ret_sites(mb, ms)]
+    if len(rets) != 1:
+        raise AnchorError("max_events: return")
+    used = [x[2] for x in expr_walk(rets[0]) if x[0] == "field" and x[1] == ("param", "self")]
+    for f in fields:
+        ctx.check(used.count(f) == 1, "max_events:%s" % f, "max_events() counts %s once" % f, mb.where(line=mb.line), bad_detail="max_events() counts %s %d times: the shared event list is mis-sized for that type" % (f, used.count(f)))
+    ctx.check(all(x[1] in ("Add", "AddWithOverflow") for x in expr_walk(rets[0]) if x[0] == "bin"), "max_events:sum", "max_events() is a plain sum", mb.where(line=mb.line))
+    # (b)
+    rb = prog.body("event::list::VecList::remove_at")
+    rs = ctx.sym(rb)
+    sides = {"next": "prev", "prev": "next"}   # written field -> the neighbour through which the node is reached
+    found = set()
+    for b, si, st in rb.assigns():
+        if len(st.dest.proj) < 2 or st.dest.proj[-1] not in (".next", ".prev") or ".metadata" not in st.dest.proj:
+            continue
+        if not any(pr.startswith("[") for pr in st.dest.proj) and not mentions_call(rs.local_expr(st.dest.local), r"IndexMut<.*>>::index_mut$|::index_mut$|::get_mut$"):
+            continue
+        if mentions_name(rs.local_expr(st.dest.local), "index") and not mentions_field(rs.local_expr(st.dest.local), "prev") and not mentions_field(rs.local_expr(st.dest.local), "next"):
+            continue  # the removed node itself
+        w = st.dest.proj[-1][1:]
+        via = sides[w]
+        found.add(w)
+        gs = [g for g in ctx.guards_at(rb, b.idx) if g.kind == "is" and g.a[0] == "field" and g.a[2] in ("prev", "next") and mentions_field(g.a, "metadata") is not None]
+        own = [g for g in gs if g.a[2] == via and g.name == "Some"]
+        other = [g for g in gs if g.a[2] == w]
+        ctx.check(bool(own) and not other, "unlink:neighbour.%s" % w, "the %s neighbour's `%s` is rewritten exactly when there is a %s neighbour" % (via, w, via), rb.where(b.idx), bad_detail="VecList::remove_at rewrites the %s neighbour's `%s` under %s: removing a record with no %s neighbour leaves its %s neighbour pointing at the freed slot" % (via, w, [repr(g) for g in gs], w, via))
+        v = rs.rvalue_expr(st.rv)
+        ctx.check(v[0] == "field" and v[2] == w and not any(x[0] == "agg" for x in expr_walk(v)), "unlink:neighbour.%s:value" % w, "it receives the removed record's own `%s` link (%s)" % (w, expr_str(v)[:50]), rb.where(b.idx))
+    ctx.check(found == {"next", "prev"}, "unlink:both-sides", "remove_at splices both neighbours (%s)" % sorted(found), rb.where(line=rb.line))
+
+
 RULES = [
     ("C03.R1", "T5", "records are removed only by clear_written/insert; clear_written only via the two confirm sites", r1),
     ("C03.R2", "T2", "release sites dominated by sequence-matched confirms", r2),
@@ -341,4 +385,5 @@ RULES = [
     ("C03.R7", "T3", "counter discipline on removal (total and written)", r7),
     ("C03.R8", "T2+T5", "Written set only after a successful write; selection/iteration state filters", r8),
     ("C03.R9", "T8+T2", "relative-time events: offset = time - CTO, only when representable and of equal time quality", r9),
+    ("C03.R10", "T8/T2", "event storage: list sized over all types; unlinking splices both neighbours, each under its own test", r10),
 ]
